@@ -1,0 +1,61 @@
+//go:build verif
+
+// Contracts for package interpreter, read by /verif's gobtvc (contract-based deductive verification).
+// This file is comment-only; it is compiled only with -tags verif and adds no code.
+
+package interpreter
+
+// ---- assumed facts ----
+// zero and one are package-level *big.Int set once at initialisation and never passed as the receiver of a mutating
+// big.Int method (gobtvc checks both syntactically on every run).
+//@ axiom interpreter.zero (and (not (nil? zero)) (= (bigval zero) 0))
+//@ axiom interpreter.one (and (not (nil? one)) (= (bigval one) 1))
+// a script stack never holds 2^31-2^16 items or more (each item costs a 24-byte slice header: > 48 GiB)
+//@ field-assume interpreter.stack.stk (<= (len value) 2147418112)
+
+// ---- well-formedness, thin contracts for the panic-freedom sweep (C07) ----
+
+//@ funcs ^interpreter\.\(\*scriptNumber\)\.
+//@   requires (spec.wf_num n)
+//@   requires (spec.wf_num o)
+//@   ensures[num_wf] (spec.wf_num n)
+
+//@ funcs ^interpreter\.\(\*scriptNumber\)\.(Add|Sub|Mul|Div|Mod|Incr|Decr|Neg|Abs|Set)$
+//@   ensures[num_chain] (= result n)
+
+//@ funcs ^interpreter\.\(\*stack\)\.
+//@   requires (spec.wf_stack s)
+//@   ensures[stack_wf] (spec.wf_stack s)
+
+//@ func interpreter.makeScriptNumber
+//@   ensures[mk_num] (and (not (nil? result)) (spec.wf_num result))
+//@ func interpreter.(*stack).PopInt
+//@   ensures[popint] (=> (= err nil) (and (not (nil? result)) (spec.wf_num result)))
+//@ func interpreter.(*stack).PeekInt
+//@   ensures[peekint] (=> (= err nil) (and (not (nil? result)) (spec.wf_num result)))
+
+//@ funcs ^interpreter\.(opcode[A-Za-z0-9]*|abstractVerify|popIfBool|verifyLockTime)$
+//@   requires (spec.wf_thread t)
+//@   ensures[thread_wf] (spec.wf_thread t)
+
+//@ funcs ^interpreter\.\(\*thread\)\.
+//@   requires (spec.wf_thread t)
+//@   ensures[thread_wf] (spec.wf_thread t)
+
+// the era configuration objects are stateless
+//@ ifaces ^interpreter\.config\.
+//@   pure
+
+// opcode handlers are called through opcode.exec; functional options through ExecutionOptionFunc
+//@ sig handler "func(*interpreter.ParsedOpcode, *interpreter.thread) error"
+//@   opt params op t
+//@   requires (spec.wf_thread t)
+//@   ensures[thread_wf] (spec.wf_thread t)
+//@ sig option "func(p *interpreter.execOpts)"
+//@   opt params p
+//@   assigns (deref p)
+
+//@ func interpreter.getStack
+//@   requires (spec.wf_stack stack)
+//@ func interpreter.setStack
+//@   requires (spec.wf_stack stack)
